@@ -257,6 +257,14 @@ theorem setitem_list_nat (xs : List PyVal) (i : Nat) (y : PyVal) (h : i < xs.len
     setitem (.list xs) (.int i) y = .ok (.list (xs.set i y)) := by
   simp [setitem, asInt, normIndex, h]
 
+theorem set_self_of_getElem? {α} (xs : List α) (i : Nat) (y : α) (h : xs[i]? = some y) : xs.set i y = xs := by
+  induction xs generalizing i with
+  | nil => rfl
+  | cons a as ih =>
+    cases i with
+    | zero => simp at h; simp [h]
+    | succ j => simp at h; simp [ih j h]
+
 theorem unpack2_tuple (a b : PyVal) : unpack2 (.tuple [a, b]) = .ok (a, b) := by rfl
 theorem unpack3_tuple (a b c : PyVal) : unpack3 (.tuple [a, b, c]) = .ok (a, b, c) := by rfl
 
@@ -331,14 +339,35 @@ theorem normalize_fuel (O : PyMk.Oracle) : (n : Nat) → (l : List Mk.M) → dep
         · simp [List.getElem?_eq_none h] at hxs
       cases x with
       | bool t =>
-        refine ⟨_, ?_, ?_⟩
-        · simp only [unpack2_tuple, ok_bind, ofM, isinstance_str]
-          trace_state
-          sorry
-        · sorry
-      | list k => sorry
-      | atom a => sorry
+        simp [unpack2_tuple, ofM, isinstance_str, Mk.normM]
+        exact (set_self_of_getElem? xs i _ (by simpa [ofM] using hxs)).symm
+      | list k =>
+        have hk : depthL k + 1 ≤ n := by
+          have := depthM_le_of_mem l _ hx
+          simp only [depthM] at this; omega
+        have ih := normalize_fuel O n k hk
+        simp only [ofML] at ih
+        simp [unpack2_tuple, ofM, isinstance_list, Mk.normM, ih, setitem_list_nat _ _ _ hi]
+      | atom a =>
+        obtain ⟨lhs, op, rhs⟩ := a
+        simp only [unpack2_tuple, unpack3_tuple, ofM, ofAtom, isinstance_tuple, ok_bind, isinstance_ofNode_variable,
+          getattr_ofNode_value, canon_call, node_init_value, setitem_list_nat _ _ _ hi, PyRt.eq, eq_str, s_extra_eq,
+          truthy_bool, pure_ok, Mk.normM, Mk.normAtom, isExtraVar_eq]
+        generalize lhs.isVar = b1
+        generalize (lhs.value == Mk.s_extra) = b2
+        generalize rhs.isVar = b3
+        generalize (rhs.value == Mk.s_extra) = b4
+        cases b1 <;> cases b2 <;> cases b3 <;> cases b4 <;> simp [ofNode, Oracle.toExt]
 
 end MarkerFmt
+
+/-- `_normalize_extra_values(results)` on a `MarkerList`: every tuple at every depth that compares `extra` gets the other
+side canonicalised (`canonicalize_name` through the oracle) -/
+theorem _normalize_extra_values_eq_model (O : PyMk.Oracle) (l : List Mk.M) :
+    Gen.PySrc._normalize_extra_values O.ext (ofML l) = .ok (ofML (Mk.normalizeExtra O.toExt l)) := by
+  unfold Gen.PySrc._normalize_extra_values
+  refine normalize_fuel O _ l ?_
+  have := depthL_le_sizeL l
+  simp only [fuelOf, sizeL, ofML, size]; omega
 
 end Src
